@@ -634,14 +634,44 @@ func (m *Mem) assumeLeafType(st *State, x Term, t types.Type, kind string) {
 	}
 }
 
+var gcSizes = types.SizesFor("gc", "amd64")
+
+// maxElems is the largest number of elements a backing array of the slice type t can have (A-slice-size).
+func maxElems(t types.Type) *big.Int {
+	maxInt := new(big.Int).Sub(pow2(63), big.NewInt(1))
+	if t == nil {
+		return maxInt
+	}
+	sl, ok := t.Underlying().(*types.Slice)
+	if !ok {
+		return maxInt
+	}
+	var sz int64
+	func() {
+		defer func() {
+			if recover() != nil {
+				sz = 0 // size not computable (type parameters): no bound beyond int
+			}
+		}()
+		sz = gcSizes.Sizeof(sl.Elem())
+	}()
+	if sz <= 0 {
+		return maxInt
+	}
+	return new(big.Int).Div(pow2(48), big.NewInt(sz))
+}
+
 func (m *Mem) assumeValueShape(st *State, v Value, t types.Type) {
 	switch x := v.(type) {
 	case SliceV:
 		if m.sliceHook != nil {
 			m.sliceHook(x)
 		}
+		// A-slice-size: no Go object is larger than 2^48 bytes (runtime maxAlloc on 64-bit linux), so a
+		// backing array of elements of size k >= 1 has at most 2^48/k elements; arrays of zero-size elements
+		// are only bounded by the range of int.
 		m.c.Assume(And(Le(x.Len, x.Cap), Imp(Eq(x.Arr, IntLit(0)), And(Eq(x.Cap, IntLit(0)), Eq(x.Off, IntLit(0)))),
-			Le(Add(x.Off, x.Cap), IntLit(1<<47))))
+			Le(Add(x.Off, x.Cap), BigLit(maxElems(t)))))
 	case IfaceV:
 		m.c.Assume(Imp(Eq(x.Tag, IntLit(0)), Eq(x.Pay, IntLit(0))))
 	case StructV:
